@@ -76,6 +76,12 @@ class SdkRun:
             return arr.get_future_index(self.lv_as_index(i["n"]))
         if i["k"] == "reg":
             return arr.get_future_index(self.regfs[i["h"]])
+        if i["k"] == "fut":
+            # indexed by the value of another array entry: ONE real Future object per (array, index entry), used again and again
+            key = f"{loc['a']}[{i['a']}[{i['j']}]]"
+            if key not in self.futcache:
+                self.futcache[key] = arr.get_future_index(self.real_loc({"k": "fut", "a": i["a"], "i": {"k": "c", "v": i["j"]}}))
+            return self.futcache[key]
         raise KeyError(i)
 
     def real_val(self, v):
@@ -87,8 +93,10 @@ class SdkRun:
 
     def tla_idx(self, i):
         if i["k"] == "reg":
-            return {"k": "reg", "h": self.hid(i["h"]), "v": 0, "n": 0}
-        return {"k": i["k"], "v": i.get("v", 0), "n": i.get("n", 0), "h": 0}
+            return {"k": "reg", "h": self.hid(i["h"]), "v": 0, "n": 0, "a": 0, "j": 0}
+        if i["k"] == "fut":
+            return {"k": "fut", "a": self.arrays[i["a"]].address, "j": i["j"], "v": 0, "n": 0, "h": 0}
+        return {"k": i["k"], "v": i.get("v", 0), "n": i.get("n", 0), "h": 0, "a": 0, "j": 0}
 
     def tla_loc(self, loc):
         if loc["k"] == "reg":
